@@ -7,7 +7,7 @@ import WcModel.Driver.Parse
   (`GlobInit.unix_on_this_host` in `Proofs/GlobFlags.lean`); the Windows drive branch
   (313-327) is unreachable from `glob()` here and `split` answers `.error .windows` for it.
 
-  `split` mirrors the scanner branch by branch, including the quirk that `parse_extend`
+  `split` mirrors the scanner branch by branch (the rewind-mark quirk of `parse_extend`, D30, is repaired and mirrored); formerly: `parse_extend`
   overwrites its rewind mark `index` when it meets a `[` (266), so a failed group rewinds
   to just after the last bracket it saw.
 -/
@@ -99,9 +99,10 @@ def extLoop (extend : Bool) : Nat → It → It → Bool × It
         | none => extLoop extend fuel it1 mark
         | some (_, it2) => extLoop extend fuel it2 mark
       else if c = '[' then
+        -- the bracket has its own rewind mark (fix: D30); the group's mark is kept
         match sequence it1 with
-        | some it2 => extLoop extend fuel it2 it1
-        | none => extLoop extend fuel it1 it1
+        | some it2 => extLoop extend fuel it2 mark
+        | none => extLoop extend fuel it1 mark
       else extLoop extend fuel it1 mark
 end
 
